@@ -86,6 +86,17 @@ namespace vf::vt {
         long long decisions = 0, switches = 0, timeouts_fired = 0, max_decisions = 200000;
         long long site_hits[site_max] = {};
         std::vector<int> trace;              // chosen thread per decision (for the replay file / samples)
+        std::vector<std::pair<int, int>> branches;    // forced mode: (eligible count, picked index) per decision
+        int preemptions = 0;
+        bool pct_init = false;
+        std::vector<long long> pct_prio;
+        std::vector<long long> pct_change;
+        std::string branch_aux() const
+        {
+            std::string a;
+            for (auto const& b : branches) a += std::to_string(b.first) + "." + std::to_string(b.second) + ",";
+            return a;
+        }
         std::function<std::string()> diagnose;
         bool allow_timeouts = true;          // may the scheduler fire finite deadlines by choice?
         bool timeouts_only_when_idle = false;    // fire a deadline only when no thread can run (excludes timeout-vs-notify races)
@@ -126,6 +137,7 @@ namespace vf::vt {
                 std::string(livelock ? "all runnable logical threads spin without any progress" : "all logical threads are blocked") +
                     " (" + state_dump() + ") after " + std::to_string(decisions) + " decisions; " + d);
             o.counters["decisions"] = decisions;
+            o.aux = branch_aux();
             std::string s = o.serialize();
             if (child_fd() >= 0) { ssize_t r = write(child_fd(), s.data(), s.size()); (void) r; }
             else std::fprintf(stderr, "%s\n", s.c_str());
@@ -167,12 +179,43 @@ namespace vf::vt {
                 Outcome o;
                 o.kind = Outcome::INCONCLUSIVE;
                 o.msg = "vt: decision budget exhausted";
+                o.aux = branch_aux();
                 std::string s = o.serialize();
                 if (child_fd() >= 0) { ssize_t r = write(child_fd(), s.data(), s.size()); (void) r; }
                 _exit(0);
             }
             int pick;
-            if (tape && !tape->exhausted())
+            if (vf::forced_mode())
+            {
+                // context bounding: once the preemption budget is used up a thread that can continue does continue
+                bool self_el = false;
+                for (int e : el) if (e == self) self_el = true;
+                if (self_el && vf::preemption_bound() >= 0 && preemptions >= vf::preemption_bound()) { el.clear(); el.push_back(self); }
+                std::size_t di = branches.size();
+                int idx = di < vf::forced_schedule().size() ? vf::forced_schedule()[di] : 0;
+                if (idx >= static_cast<int>(el.size())) idx = static_cast<int>(el.size()) - 1;
+                if (branches.size() < 4000) branches.emplace_back(static_cast<int>(el.size()), idx);
+                pick = el[static_cast<std::size_t>(idx)];
+                if (self_el && pick != self) ++preemptions;
+            }
+            else if (vf::vt_mode() == 1 && tape)
+            {
+                if (!pct_init)
+                {
+                    pct_init = true;
+                    pct_prio.resize(ts.size());
+                    for (std::size_t i = 0; i < ts.size(); ++i) pct_prio[i] = (static_cast<long long>(tape->below(1u << 20)) << 8) | static_cast<long long>(i);
+                    int d = 1 + static_cast<int>(tape->below(4));
+                    int K = tape->pick({8, 16, 32, 64, 128});
+                    for (int j = 0; j + 1 < d; ++j) pct_change.push_back(static_cast<long long>(tape->below(static_cast<std::uint32_t>(K))) + 1);
+                }
+                for (std::size_t j = 0; j < pct_change.size(); ++j)
+                    if (pct_change[j] == decisions && self >= 0) pct_prio[static_cast<std::size_t>(self)] = -static_cast<long long>(j) - 1;    // below every initial priority
+                pick = el[0];
+                for (int e : el)
+                    if (pct_prio[static_cast<std::size_t>(e)] > pct_prio[static_cast<std::size_t>(pick)]) pick = e;
+            }
+            else if (tape && !tape->exhausted())
             {
                 pick = el[tape->below(static_cast<std::uint32_t>(el.size()))];
             }
@@ -253,6 +296,7 @@ namespace vf::vt {
             }
             for (auto& up : ts) up->th.join();
             cur_sched() = nullptr;
+            if (vf::forced_mode()) vf::case_aux() = branch_aux();
         }
     };
 
